@@ -29,7 +29,7 @@ func TestVerifC14Enum(t *testing.T) {
 		Names: []string{"J0", "J1", "J2", "J0new", "S0", "S1", "S2", "L0", "L1", "+4s", "+11s"},
 		Depth: r.N(3, 5),
 		Preambles: map[string][]gOp{
-			"empty": nil,
+			"empty":   nil,
 			"stable3": {{K: "join", Slot: 0, Sub: sub}, {K: "join", Slot: 1, Sub: sub}, {K: "join", Slot: 2, Sub: sub}, {K: "settle"}},
 		},
 	}
